@@ -472,4 +472,806 @@ def cond(cx, e, hoist):
                 else:
                     t = "set_mem %s %s" % (atom(a), atom(b))
             return t if isinstance(op, ast.In) else "negb (%s)" % t
+    if isinstance(e, ast.Compare):
+        bad(e, "comparison `%s` is outside the templates" % src_of(e))
     return truth(cx, e, hoist)
+
+
+# ----------------------------------------------------------------------------
+# statements
+# ----------------------------------------------------------------------------
+PIN_DROP = None
+PIN_HASH = None
+
+
+def _pins():
+    global PIN_DROP, PIN_HASH
+    if PIN_DROP is None:
+        PIN_DROP = [P("nickname = None", "exec"), P("step_exp.nickname = nickname", "exec")]
+        PIN_HASH = [P('nickname = md5(combo_str.encode("utf-8")).hexdigest()', "exec"),
+                    P("workspace = make_safe_path(self._out_path, *[step, nickname])", "exec")]
+
+
+def effective(cx, stmts):
+    _pins()
+    out = []
+    for st in stmts:
+        if is_logging(st) or is_doc(st) or isinstance(st, ast.Pass):
+            continue
+        if cx.frame == "stage" and D(st) in PIN_DROP:
+            continue
+        if isinstance(st, ast.Assign) and len(st.targets) == 1 and isinstance(st.targets[0], ast.Name) and \
+                st.targets[0].id not in cx.env and is_string_expr(st.value) and \
+                not used_outside_messages(cx.fn, st.targets[0].id):
+            cx.msgvars.add(st.targets[0].id)
+            continue
+        out.append(st)
+    return out
+
+
+def mutated(cx, stmts):
+    """the variables / management dictionaries a statement list may assign"""
+    out = set()
+
+    def target(t):
+        if isinstance(t, ast.Name):
+            out.add(t.id)
+        elif isinstance(t, ast.Tuple):
+            for x in t.elts:
+                target(x)
+        elif isinstance(t, ast.Subscript):
+            if field_of(t.value):
+                out.add(t.value.attr)
+            elif isinstance(t.value, ast.Attribute) and isinstance(t.value.value, ast.Name):
+                out.add(t.value.value.id)
+            elif isinstance(t.value, ast.Name):
+                out.add(t.value.id)
+        elif isinstance(t, ast.Attribute) and isinstance(t.value, ast.Name):
+            out.add(t.value.id)
+
+    for st in stmts:
+        for n in ast.walk(st):
+            if isinstance(n, ast.Assign):
+                for t in n.targets:
+                    target(t)
+            elif isinstance(n, (ast.AugAssign, ast.AnnAssign)):
+                target(n.target)
+            elif isinstance(n, ast.For):
+                target(n.target)
+            elif isinstance(n, ast.Call) and isinstance(n.func, ast.Attribute):
+                v = n.func.value
+                if isinstance(v, ast.Subscript) and field_of(v.value):
+                    out.add(v.value.attr)
+                elif isinstance(v, ast.Name) and cx.env.get(v.id) in ("graph", "strlist", "set") and \
+                        n.func.attr in ("add_node", "add_step", "add_connection", "add_edge", "append", "add",
+                                        "remove", "discard", "update", "extend", "pop", "clear"):
+                    out.add(v.id)
+    return out
+
+
+def wrap(pad, hoist):
+    return [pad + "dict_item %s %s (fun %s =>" % (d, atom(k), G(v)) for d, k, v, _ty in hoist]
+
+
+def define(cx, st, name, ty):
+    if name in cx.msgvars or name in cx.ignored:
+        bad(st, "`%s` is reused for a modelled value" % name)
+    if name in cx.env and cx.env[name] != ty:
+        bad(st, "variable `%s` changes from %s to %s" % (name, cx.env[name], ty))
+    cx.env[name] = ty
+
+
+def split_def(cx, name, comment, params, ret_names, body):
+    if any(d[0] == name for d in cx.defs):
+        bad(cx.fn, "the structure of %s changed: two candidates for %s" % (cx.fn.name, name))
+    sig = "Definition %s (ap : list param -> nat -> str -> str) (san : str -> str) (pi : an_oracle) (sp : spec) %s : option (%s) :=" % (
+        name, group_params([(n, gtype(cx.env[n])) for n in params]), tuple_type(cx, ret_names))
+    cx.defs.append((name, ["(* %s *)" % comment, sig] + body))
+    return "%s ap san pi sp %s" % (name, " ".join(G(n) for n in params))
+
+
+def is_combo_loop(st):
+    return isinstance(st, ast.For) and D(st.iter) == P("self.parameters")
+
+
+def block(cx, stmts, ind, ret, ret_names):
+    """Translate a statement list in tail position.  `ret` is the text of falling off the end
+    (None: the function must return explicitly); `ret_names` the variables it hands on."""
+    pad = "  " * ind
+    stmts = effective(cx, stmts)
+    if not stmts:
+        if ret is None:
+            bad(cx.fn, "%s must return explicitly on every path" % cx.fn.name)
+        return [pad + ret]
+    st, rest = stmts[0], stmts[1:]
+
+    def go(c=None, r=None, i=None):
+        return block(c or cx, rest if r is None else r, ind if i is None else i, ret, ret_names)
+
+    def raising(hoist, lines_after):
+        """wrap the continuation in the KeyError lookups of this statement"""
+        return wrap(pad, hoist) + close(lines_after, len(hoist)) if hoist else lines_after
+
+    # --- terminators ---------------------------------------------------------
+    if isinstance(st, ast.Continue):
+        if not cx.loop_depth or ret is None:
+            bad(st, "continue outside a loop")
+        return [pad + ret]
+    if isinstance(st, ast.Raise):
+        if cx.pure:
+            bad(st, "raise in %s" % cx.fn.name)
+        return [pad + "None"]
+    if isinstance(st, ast.Return):
+        if cx.loop_depth or cx.fn_ret is None:
+            bad(st, "return at this position is outside the templates")
+        return [pad + cx.fn_ret(cx, st)]
+    if isinstance(st, ast.Expr) and isinstance(st.value, ast.Yield) and cx.yield_ok and not rest:
+        v = st.value.value
+        if not (isinstance(v, ast.Tuple) and len(v.elts) == 2):
+            bad(st, "the generator must yield pairs")
+        a, _ = want(cx, v.elts[0], None, ("str",), "yielded key")
+        b, _ = want(cx, v.elts[1], None, ("str",), "yielded value")
+        return [pad + "(%s, %s)" % (a, b)]
+
+    # --- if --------------------------------------------------------------------
+    if isinstance(st, ast.If):
+        if cx.frame == "stage" and D(st.test) == P("self._hash_ws"):
+            if [D(x) for x in effective(cx.fork(), st.body)] != PIN_HASH or not st.orelse:
+                bad(st, "the `if self._hash_ws` branch is pinned (the model has hash_ws off) and it changed")
+            return block(cx, list(st.orelse) + rest, ind, ret, ret_names)
+        body, orelse = effective(cx.fork(), st.body), effective(cx.fork(), st.orelse)
+        # if c: x = a  else: x = b   ->  let x := if c then a else b in
+        if len(body) == 1 and len(orelse) == 1 and all(
+                isinstance(b, ast.Assign) and len(b.targets) == 1 and isinstance(b.targets[0], ast.Name)
+                for b in (body[0], orelse[0])) and body[0].targets[0].id == orelse[0].targets[0].id:
+            trial, hoist = cx.fork(), []
+            try:
+                c = truth(trial, st.test, hoist)
+                a, ta = expr(trial, body[0].value, hoist)
+                b, tb = expr(trial, orelse[0].value, hoist)
+            except NotTranslatable:
+                hoist = [None]
+            if not hoist and ta == tb:
+                x = body[0].targets[0].id
+                define(cx, st, x, ta)
+                return [pad + "let %s := if %s then %s else %s in" % (G(x), c, a, b)] + go()
+        # the branch of a step without used parameters is a definition of its own
+        if cx.frame == "stage" and not rest and len(orelse) == 1 and is_combo_loop(orelse[0]) and cx.defs is not None:
+            hoist = []
+            c = truth(cx, st.test, hoist)
+            if hoist:
+                bad(st, "the test of the parameterised / unparameterised split can raise")
+            sub = cx.fork()
+            callee = split_def(cx, "_stage_unparam_gen", "Study._stage: the branch `if %s`" % src_of(st.test),
+                               list(cx.env), ret_names, close_def(block(sub, body, 1, ret, ret_names)))
+            return [pad + "if %s then" % c, pad + "  " + callee, pad + "else"] + \
+                block(cx.fork(), orelse, ind + 1, ret, ret_names)
+        hoist = []
+        c = truth(cx, st.test, hoist)
+        lines = [pad + "if %s then" % c] + block(cx.fork(), list(st.body) + rest, ind + 1, ret, ret_names)
+        els = effective(cx.fork(), list(st.orelse) + rest)
+        sub = None
+        if els and isinstance(els[0], ast.If):
+            sub = block(cx.fork(), els, ind, ret, ret_names)
+            if sub[0].startswith(pad + "if "):
+                lines = lines + [pad + "else " + sub[0].strip()] + sub[1:]
+            else:
+                sub = None
+        if sub is None:
+            lines = lines + [pad + "else"] + block(cx.fork(), els, ind + 1, ret, ret_names)
+        return raising(hoist, lines)
+
+    # --- for -------------------------------------------------------------------
+    if isinstance(st, ast.For):
+        if st.orelse or not isinstance(st.target, ast.Name):
+            bad(st, "unsupported form of for loop")
+        x = st.target.id
+        hoist = []
+        if is_combo_loop(st) and cx.frame == "stage":
+            it, ety, kw = "combinations (sp_params sp)", "combo", "for_in"
+        else:
+            it, ity = want(cx, st.iter, hoist, ("set", "strlist"), "iterated value")
+            ety = "str"
+            if ity == "set":
+                if cx.pure:
+                    bad(st, "iteration over a set needs the order oracle, which %s does not have" % cx.fn.name)
+                kw = "for_set pi"
+            else:
+                kw = "for_in"
+        S = [v for v in cx.env if v in mutated(cx, st.body) and v != x]
+        if not S:
+            bad(st, "a loop that assigns nothing has no effect in the model")
+        b = cx.fork()
+        if x in b.env and b.env[x] != ety:
+            bad(st, "loop variable `%s` shadows a %s" % (x, b.env[x]))
+        b.env[x] = ety
+        b.loop_depth += 1
+        if cx.pure:
+            if hoist:
+                bad(st, "a lookup that can raise in %s" % cx.fn.name)
+            body = block(b, st.body, ind + 1, tup(S), S)
+            return [pad + "let %s := for_each %s %s (fun %s %s =>" % (tup(S), atom(it), tup(S), G(x), pat(S))] + \
+                close_in(body) + go()
+        name = None
+        if cx.defs is not None and cx.frame == "stage":
+            if is_combo_loop(st):
+                name, comment = "_stage_combo_gen", "Study._stage: the body of `for combo in self.parameters`"
+            elif cx.loop_depth == 0:
+                name, comment = "_stage_step_gen", "Study._stage: the body of `for %s in %s`" % (x, src_of(st.iter))
+        if name:
+            params = [v for v in b.env if v not in S and v != x] + [x] + S
+            body = [pad + "  " + split_def(b, name, comment, params, S,
+                                           close_def(block(b, st.body, 1, "Some " + tup(S), S)))]
+        else:
+            body = block(b, st.body, ind + 1, "Some " + tup(S), S)
+        lines = [pad + "%s %s %s (fun %s %s =>" % (kw, atom(it), tup(S), G(x), pat(S))] + close(body) + \
+                [pad + "(fun %s =>" % pat(S)] + close(go())
+        return raising(hoist, lines)
+
+    # --- assignments -----------------------------------------------------------
+    if isinstance(st, ast.Assign) and len(st.targets) == 1:
+        t, v = st.targets[0], st.value
+        # modified, step_exp = node.apply_parameters(combo)
+        if isinstance(t, ast.Tuple) and len(t.elts) == 2 and all(isinstance(x, ast.Name) for x in t.elts) and \
+                isinstance(v, ast.Call) and isinstance(v.func, ast.Attribute) and v.func.attr == "apply_parameters" and \
+                len(v.args) == 1 and not v.keywords and cx.frame == "stage":
+            flag, new = t.elts[0].id, t.elts[1].id
+            if used_outside_messages(cx.fn, flag):
+                bad(st, "the `modified` flag of apply_parameters is used")
+            cx.ignored.add(flag)
+            n, _ = want(cx, v.func.value, None, ("step",), "receiver of apply_parameters")
+            c, _ = want(cx, v.args[0], None, ("combo",), "argument of apply_parameters")
+            define(cx, st, new, "step")
+            return [pad + "let %s := step_apply_parameters (ap (sp_params sp) %s) %s in" % (G(new), c, atom(n))] + go()
+        if isinstance(t, ast.Name):
+            hoist = []
+            if isinstance(v, ast.Subscript) and isinstance(v.value, ast.Attribute) and not run_key(cx, v) and \
+                    cx.frame == "stage":
+                before = len(hoist)
+                txt, ty = lookup(cx, v, hoist, name=t.id)
+                if len(hoist) > before and hoist[-1][2] == t.id:     # x = D[k], raising: the lookup binds x
+                    define(cx, st, t.id, ty)
+                    return raising(hoist, go())
+            else:
+                txt, ty = expr(cx, v, hoist)
+            if isinstance(v, ast.List) and not v.elts:
+                txt, ty = "[]", "strlist"
+            if ty in ("bool", "pyval"):
+                bad(st, "a %s is not stored in a variable in the templates" % ty)
+            define(cx, st, t.id, ty)
+            return raising(hoist, [pad + "let %s := %s in" % (G(t.id), txt)] + go())
+        if isinstance(t, ast.Subscript) and field_of(t.value) and cx.frame == "stage":
+            f = t.value.attr
+            hoist = []
+            k, _ = want(cx, t.slice, hoist, ("str",), "dictionary key")
+            val, _ = want(cx, v, hoist, (FIELD_TYPES[f],), "value stored in self.%s" % f)
+            if isinstance(t.slice, ast.Name):
+                cx.present.add((f, t.slice.id))
+            return raising(hoist, [pad + "let %s := dict_set %s %s %s in" % (f, atom(k), atom(val), f)] + go())
+        rk = run_key(cx, t)
+        if rk and rk[1] in ("cmd", "restart"):
+            hoist = []
+            val, _ = want(cx, v, hoist, ("str",), "value stored in run[%r]" % rk[1])
+            return raising(hoist, [pad + "let %s := run_set_%s %s %s in" % (G(rk[0]), rk[1], atom(val), G(rk[0]))] + go())
+        if isinstance(t, ast.Attribute) and t.attr == "name" and isinstance(t.value, ast.Name) and \
+                cx.env.get(t.value.id) == "step":
+            hoist = []
+            val, _ = want(cx, v, hoist, ("str",), "step name")
+            return raising(hoist, [pad + "let %s := step_set_name %s %s in" % (G(t.value.id), atom(val), G(t.value.id))] + go())
+        bad(st, "assignment `%s` is outside the templates" % src_of(st))
+    if isinstance(st, ast.AugAssign) and isinstance(st.op, ast.BitOr) and isinstance(st.target, ast.Name) and \
+            cx.env.get(st.target.id) == "set" and cx.frame == "stage":
+        hoist = []
+        val, _ = want(cx, st.value, hoist, ("set",), "operand of |=")
+        x = G(st.target.id)
+        return raising(hoist, [pad + "let %s := pk_union (sp_params sp) %s %s in" % (x, x, atom(val))] + go())
+
+    # --- calls for their effect ------------------------------------------------
+    if isinstance(st, ast.Expr) and isinstance(st.value, ast.Call) and isinstance(st.value.func, ast.Attribute):
+        c, f = st.value, st.value.func
+        # self.<dict>[k].add(x)
+        if f.attr == "add" and isinstance(f.value, ast.Subscript) and field_of(f.value.value) and \
+                len(c.args) == 1 and not c.keywords and cx.frame == "stage":
+            fld, key = f.value.value.attr, f.value.slice
+            if FIELD_TYPES[fld] != "set" or not isinstance(key, ast.Name) or (fld, key.id) not in cx.present:
+                bad(st, "`.add` on a dictionary entry this iteration did not create: " + src_of(st))
+            hoist = []
+            k, _ = want(cx, key, hoist, ("str",), "dictionary key")
+            val, _ = want(cx, c.args[0], hoist, ("str",), "added element")
+            return raising(hoist, [pad + "let %s := dict_set_add %s %s %s in" % (fld, atom(k), atom(val), fld)] + go())
+        # <list>.append(x)
+        if f.attr == "append" and isinstance(f.value, ast.Name) and cx.env.get(f.value.id) == "strlist" and \
+                len(c.args) == 1 and not c.keywords:
+            hoist = []
+            val, _ = want(cx, c.args[0], hoist, ("str",), "appended element")
+            x = G(f.value.id)
+            return raising(hoist, [pad + "let %s := list_append %s %s in" % (x, x, atom(val))] + go())
+        # dag.<method>(..)
+        if isinstance(f.value, ast.Name) and cx.env.get(f.value.id) == "graph" and cx.frame == "stage":
+            dag = G(f.value.id)
+            hoist = []
+            if f.attr == "add_node" and len(c.args) == 2 and not c.keywords and \
+                    isinstance(c.args[1], ast.Constant) and c.args[1].value is None:
+                n, _ = want(cx, c.args[0], hoist, ("str",), "node name")
+                return raising(hoist, [pad + "let %s := dag_add_node %s None %s in" % (dag, atom(n), dag)] + go())
+            if f.attr == "add_step" and len(c.args) == 4 and all(k.arg == "params" for k in c.keywords) and \
+                    len(c.keywords) <= 1:
+                n, _ = want(cx, c.args[0], hoist, ("str",), "name passed to add_step")
+                s_, _ = want(cx, c.args[1], hoist, ("step",), "step passed to add_step")
+                w, _ = want(cx, c.args[2], hoist, ("path",), "workspace passed to add_step")
+                r, _ = want(cx, c.args[3], hoist, ("nat",), "restart limit passed to add_step")
+                p = "[]"
+                if c.keywords:
+                    p, _ = want(cx, c.keywords[0].value, hoist, ("kvs",), "params passed to add_step")
+                return raising(hoist, [pad + "let %s := add_step_gen %s %s %s %s %s %s in" % (
+                    dag, dag, atom(n), atom(s_), atom(w), atom(r), atom(p))] + go())
+            if f.attr == "add_connection" and len(c.args) == 2 and not c.keywords:
+                a, _ = want(cx, c.args[0], hoist, ("str",), "parent passed to add_connection")
+                b, _ = want(cx, c.args[1], hoist, ("str",), "child passed to add_connection")
+                return raising(hoist, [pad + "call (add_connection_gen %s %s %s) (fun %s =>" % (dag, atom(a), atom(b), dag)]
+                               + close(go()))
+    bad(st, "statement `%s` is outside the templates" % src_of(st))
+
+
+def close_in(lines):
+    lines = list(lines)
+    lines[-1] += ") in"
+    return lines
+
+
+def close_def(lines):
+    return list(lines)
+
+
+def new_cx(fn, frame, defs=None):
+    cx = Cx(fn, frame)
+    cx.defs = defs
+    cx.fn_ret = None
+    cx.yield_ok = False
+    return cx
+
+
+# ----------------------------------------------------------------------------
+# frames: parameters.py
+# ----------------------------------------------------------------------------
+def finish(lines):
+    lines = list(lines)
+    lines[-1] += "."
+    return "\n".join(lines)
+
+
+def gen_get_param_string(cls):
+    fn = find_fn(cls, "get_param_string")
+    params_of(fn, ["params"])
+    cx = new_cx(fn, "combination")
+    cx.pure = True
+    cx.env["params"] = "set"
+
+    def ret(c, st):
+        if st.value is None:
+            bad(st, "get_param_string must return a string")
+        return want(c, st.value, None, ("str",), "returned value")[0]
+    cx.fn_ret = ret
+    body = block(cx, fn.body, 1, None, [])
+    return finish(["(* Combination.get_param_string; [self] is the combination of row [combo] *)",
+                   "Definition get_param_string_gen (ps : list param) (combo : nat) (params : list str) : str :="] + body)
+
+
+def gen_get_param_values(cls):
+    fn = find_fn(cls, "get_param_values")
+    params_of(fn, ["params"])
+    cx = new_cx(fn, "combination")
+    cx.pure = True
+    cx.env["params"] = "set"
+    body = effective(cx, fn.body)
+    if len(body) != 1 or not isinstance(body[0], ast.For) or body[0].orelse or not isinstance(body[0].target, ast.Name):
+        bad(fn, "get_param_values is not a single `for key in ..: ..; yield key, value`")
+    loop = body[0]
+    it, ty = want(cx, loop.iter, None, ("set", "strlist"), "iterated value")
+    if ty == "set":
+        bad(loop, "iteration over a set needs the order oracle, which get_param_values does not have")
+    b = cx.fork()
+    b.env[loop.target.id] = "str"
+    b.yield_ok = True
+    b.loop_depth = 1
+    inner = block(b, loop.body, 2, None, [])
+    return finish(["(* Combination.get_param_values; [self] is the combination of row [combo] *)",
+                   "Definition get_param_values_gen (ps : list param) (combo : nat) (params : list str) : list (str * str) :=",
+                   "  for_yield %s (fun %s =>" % (atom(it), G(loop.target.id))] + close(inner))
+
+
+def isinstance_test(e, var, tyname):
+    return D(e) == P("isinstance(%s, %s)" % (var, tyname))
+
+
+def gen_used_rec(cls):
+    """ParameterGenerator._get_used_parameters: the isinstance chain becomes a match on the value"""
+    fn = find_fn(cls, "_get_used_parameters")
+    params_of(fn, ["item", "params"])
+    cx = new_cx(fn, "pgen")
+    cx.pure = True
+    body = effective(cx, fn.body)
+    if len(body) != 1 or not isinstance(body[0], ast.If):
+        bad(fn, "_get_used_parameters is not one if / elif chain")
+    chain, node = [], body[0]
+    while True:
+        chain.append((node.test, effective(cx, node.body)))
+        els = effective(cx, node.orelse)
+        if len(els) == 1 and isinstance(els[0], ast.If):
+            node = els[0]
+            continue
+        chain.append((None, els))
+        break
+    if len(chain) != 5:
+        bad(fn, "_get_used_parameters: expected `if not item / elif str / elif list / elif dict / else`")
+    (t0, b0), (t1, b1), (t2, b2), (t3, b3), (_t4, b4) = chain
+
+    def only_return(b):
+        return len(b) == 1 and isinstance(b[0], ast.Return) and b[0].value is None
+    if D(t0) != P("not item") or not only_return(b0):
+        bad(t0, "the first case must be `if not item: return`")
+    if not only_return(b4):
+        bad(fn, "the last case (other types) must only return")
+    if not (isinstance_test(t1, "item", "str") and isinstance_test(t2, "item", "list") and
+            isinstance_test(t3, "item", "dict")):
+        bad(t1, "the cases must be isinstance(item, str) / (item, list) / (item, dict), in this order")
+    # str: for key in self.parameters.keys(): r = REGEX.format(self.token, key); m = re.findall(r, item); if m: params.add(key)
+    if len(b1) != 1 or not isinstance(b1[0], ast.For) or b1[0].orelse or not isinstance(b1[0].target, ast.Name) or \
+            D(b1[0].iter) not in (P("self.parameters.keys()"), P("self.parameters")):
+        bad(t1, "the str case must be `for key in self.parameters.keys(): ..`")
+    key = b1[0].target.id
+    sb = effective(cx, b1[0].body)
+    ok = len(sb) == 3 and all(isinstance(x, ast.Assign) and len(x.targets) == 1 and isinstance(x.targets[0], ast.Name)
+                              for x in sb[:2]) and isinstance(sb[2], ast.If)
+    if ok:
+        r, m = sb[0].targets[0].id, sb[1].targets[0].id
+        ok = D(sb[0].value) == P("%r.format(self.token, %s)" % (PARAM_REGEX_TEXT, key)) and \
+            D(sb[1].value) == P("re.findall(%s, item)" % r) and D(sb[2].test) == P(m) and not sb[2].orelse and \
+            [D(x) for x in effective(cx, sb[2].body)] == [P("params.add(%s)" % key, "exec")]
+    if not ok:
+        bad(b1[0], "the str case is not `r = r\"%s\".format(self.token, key); m = re.findall(r, item); "
+                   "if m: params.add(key)`" % PARAM_REGEX_TEXT)
+
+    def rec_loop(b, iter_src):
+        if len(b) != 1 or not isinstance(b[0], ast.For) or b[0].orelse or not isinstance(b[0].target, ast.Name) or \
+                D(b[0].iter) != P(iter_src):
+            return None
+        each = b[0].target.id
+        inner = effective(cx, b[0].body)
+        if [D(x) for x in inner] != [P("self._get_used_parameters(%s, params)" % each, "exec")]:
+            return None
+        return each
+    e2, e3 = rec_loop(b2, "item"), rec_loop(b3, "item.values()")
+    if not e2:
+        bad(t2, "the list case is not `for each in item: self._get_used_parameters(each, params)`")
+    if not e3:
+        bad(t3, "the dict case is not `for each in item.values(): self._get_used_parameters(each, params)`")
+    k = G(key)
+    return finish([
+        "(* ParameterGenerator._get_used_parameters *)",
+        "Fixpoint _get_used_parameters_gen (ps : list param) (item : pyval) (params : list str) {struct item} : list str :=",
+        "  if py_falsy item then",
+        "    params",
+        "  else",
+        "    match item with",
+        "    | PStr item =>",
+        "      for_each (parameter_keys ps) params (fun %s params =>" % k,
+        "        if re_param_token_found %s item then" % k,
+        "          let params := pk_add ps %s params in" % k,
+        "          params",
+        "        else",
+        "          params)",
+        "    | PList item =>",
+        "      for_each item params (fun %s params =>" % G(e2),
+        "        _get_used_parameters_gen ps %s params)" % G(e2),
+        "    | PDict item =>",
+        "      for_values item params (fun %s params =>" % G(e3),
+        "        _get_used_parameters_gen ps %s params)" % G(e3),
+        "    end"])
+
+
+def gen_used(cls):
+    fn = find_fn(cls, "get_used_parameters")
+    params_of(fn, ["step"])
+    cx = new_cx(fn, "pgen")
+    body = effective(cx, fn.body)
+    want_ = [P("params = set()", "exec"), P("self._get_used_parameters(step.__dict__, params)", "exec"),
+             P("return params", "exec")]
+    if [D(x) for x in body] != want_:
+        bad(fn, "get_used_parameters is not `params = set(); self._get_used_parameters(step.__dict__, params); "
+                "return params`")
+    return finish(["(* ParameterGenerator.get_used_parameters *)",
+                   "Definition get_used_parameters_gen (ps : list param) (step : study_step) : list str :=",
+                   "  let params := set_empty in",
+                   "  let params := _get_used_parameters_gen ps (step_dict step) params in",
+                   "  params"])
+
+
+# ----------------------------------------------------------------------------
+# frames: executiongraph.py
+# ----------------------------------------------------------------------------
+def gen_add_step(cls):
+    fn = find_fn(cls, "add_step")
+    a = fn.args
+    names = [x.arg for x in a.args]
+    if names != ["self", "name", "step", "workspace", "restart_limit", "params"] or len(a.defaults) != 1 or \
+            not (isinstance(a.defaults[0], ast.Constant) and a.defaults[0].value is None) or a.vararg or a.kwarg or \
+            a.kwonlyargs or fn.decorator_list:
+        bad(fn, "signature of add_step changed")
+    types = {"name": "str", "step": "step", "workspace": "path", "restart_limit": "nat", "params": "kvs"}
+    cx = new_cx(fn, "graph")
+    body = effective(cx, fn.body)
+    if len(body) != 5:
+        bad(fn, "add_step: expected `data = {..}; record = _StepRecord(**data); if params: record.add_params(params); "
+                "self._dependencies[name] = set(); super(..).add_node(name, record)`")
+    s0, s1, s2, s3, s4 = body
+    if not (isinstance(s0, ast.Assign) and len(s0.targets) == 1 and isinstance(s0.targets[0], ast.Name) and
+            isinstance(s0.value, ast.Dict) and all(const_str(k) is not None for k in s0.value.keys)):
+        bad(s0, "the keyword dictionary of the record is not a literal")
+    data = s0.targets[0].id
+    kw = {k.value: v for k, v in zip(s0.value.keys, s0.value.values)}
+    if sorted(kw) != ["restart_limit", "state", "step", "workspace"] or D(kw["state"]) != P("State.INITIALIZED"):
+        bad(s0, "the record is not created from exactly step / state=INITIALIZED / workspace / restart_limit")
+    args = []
+    for key, ty in (("step", "step"), ("workspace", "path"), ("restart_limit", "nat")):
+        v = kw[key]
+        if not (isinstance(v, ast.Name) and types.get(v.id) == ty):
+            bad(v, "`%s` of the record is not one of add_step's %s arguments" % (key, ty))
+        args.append(G(v.id))
+    if not (isinstance(s1, ast.Assign) and len(s1.targets) == 1 and isinstance(s1.targets[0], ast.Name) and
+            D(s1.value) == P("_StepRecord(**%s)" % data)):
+        bad(s1, "not `record = _StepRecord(**%s)`" % data)
+    rec = s1.targets[0].id
+    if not (isinstance(s2, ast.If) and not s2.orelse and isinstance(s2.test, ast.Name) and types.get(s2.test.id) == "kvs"):
+        bad(s2, "not `if params: %s.add_params(params)`" % rec)
+    inner = effective(cx, s2.body)
+    if len(inner) != 1 or not (isinstance(inner[0], ast.Expr) and isinstance(inner[0].value, ast.Call) and
+                               D(inner[0].value.func) == P("%s.add_params" % rec) and len(inner[0].value.args) == 1 and
+                               isinstance(inner[0].value.args[0], ast.Name) and
+                               types.get(inner[0].value.args[0].id) == "kvs" and not inner[0].value.keywords):
+        bad(s2, "not `if params: %s.add_params(params)`" % rec)
+    if not (isinstance(s3, ast.Assign) and len(s3.targets) == 1 and isinstance(s3.targets[0], ast.Subscript) and
+            self_attr(s3.targets[0].value, "_dependencies") and isinstance(s3.targets[0].slice, ast.Name) and
+            types.get(s3.targets[0].slice.id) == "str" and D(s3.value) == P("set()")):
+        bad(s3, "not `self._dependencies[name] = set()`")
+    if not (isinstance(s4, ast.Expr) and isinstance(s4.value, ast.Call) and
+            D(s4.value.func) == P("super(ExecutionGraph, self).add_node") and len(s4.value.args) == 2 and
+            not s4.value.keywords and isinstance(s4.value.args[0], ast.Name) and
+            types.get(s4.value.args[0].id) == "str" and D(s4.value.args[1]) == P(rec)):
+        bad(s4, "not `super(ExecutionGraph, self).add_node(name, %s)`" % rec)
+    r = G(rec)
+    return finish([
+        "(* ExecutionGraph.add_step *)",
+        "Definition add_step_gen (dag : graph) (name : str) (step : study_step) (workspace : path) "
+        "(restart_limit : nat) (params : list (str * str)) : graph :=",
+        "  let %s := step_record %s in" % (r, " ".join(args)),
+        "  let %s := if nonempty %s then record_add_params %s %s else %s in" % (
+            r, G(s2.test.id), G(inner[0].value.args[0].id), r, r),
+        "  let dag := dependencies_reset %s dag in" % G(s3.targets[0].slice.id),
+        "  let dag := dag_add_node %s (Some %s) dag in" % (G(s4.value.args[0].id), r),
+        "  dag"])
+
+
+def gen_add_connection(cls):
+    fn = find_fn(cls, "add_connection")
+    params_of(fn, ["parent", "step"])
+    cx = new_cx(fn, "graph")
+    body = effective(cx, fn.body)
+    names = ("parent", "step")
+
+    def two_names(call):
+        return len(call.args) == 2 and not call.keywords and all(isinstance(x, ast.Name) and x.id in names
+                                                                 for x in call.args)
+    if len(body) != 2 or not all(isinstance(x, ast.Expr) and isinstance(x.value, ast.Call) for x in body):
+        bad(fn, "add_connection is not `self.add_edge(a, b); self._dependencies[c].add(d)`")
+    e0, e1 = body[0].value, body[1].value
+    if not (D(e0.func) == P("self.add_edge") and two_names(e0)):
+        bad(body[0], "not `self.add_edge(<parent|step>, <parent|step>)`")
+    f1 = e1.func
+    if not (isinstance(f1, ast.Attribute) and f1.attr == "add" and isinstance(f1.value, ast.Subscript) and
+            self_attr(f1.value.value, "_dependencies") and isinstance(f1.value.slice, ast.Name) and
+            f1.value.slice.id in names and len(e1.args) == 1 and isinstance(e1.args[0], ast.Name) and
+            e1.args[0].id in names and not e1.keywords):
+        bad(body[1], "not `self._dependencies[<parent|step>].add(<parent|step>)`")
+    return finish([
+        "(* ExecutionGraph.add_connection *)",
+        "Definition add_connection_gen (dag : graph) (parent step : str) : option graph :=",
+        "  dag_add_edge %s %s dag (fun dag =>" % (e0.args[0].id, e0.args[1].id),
+        "  let dag := dependencies_add %s %s dag in" % (f1.value.slice.id, e1.args[0].id),
+        "  Some dag)"])
+
+
+# ----------------------------------------------------------------------------
+# frames: study.py
+# ----------------------------------------------------------------------------
+def check_constants(tree):
+    found = {}
+    for n in tree.body:
+        if isinstance(n, ast.Assign) and len(n.targets) == 1 and isinstance(n.targets[0], ast.Name) and \
+                n.targets[0].id in ("SOURCE", "WSREGEX", "ALL_COMBOS"):
+            if n.targets[0].id in found:
+                bad(n, "%s is assigned twice" % n.targets[0].id)
+            found[n.targets[0].id] = n.value
+    want_ = {"SOURCE": P('"_source"'), "WSREGEX": P("re.compile(%r)" % WSREGEX_TEXT),
+             "ALL_COMBOS": P("re.compile(%r)" % ALL_COMBOS_TEXT)}
+    for k, v in want_.items():
+        if k not in found or D(found[k]) != v:
+            bad(tree, "the module constant %s is pinned (Expand.v models its text) and it changed" % k)
+
+
+def gen_fields(cls):
+    """the management dictionaries of Study.__init__, in source order -> [(name, initial value text)]"""
+    fn = find_fn(cls, "__init__")
+    out = []
+    for st in ast.walk(fn):
+        if isinstance(st, ast.Assign):
+            for t in st.targets:
+                if field_of(t):
+                    if len(st.targets) != 1:
+                        bad(st, "chained assignment of a management dictionary")
+                    out.append((st.lineno, t.attr, st.value))
+    out.sort()
+    if sorted(x[1] for x in out) != sorted(FIELD_TYPES):
+        bad(fn, "Study.__init__ does not create each of %s exactly once" % ", ".join(sorted(FIELD_TYPES)))
+    res = []
+    for _ln, name, v in out:
+        if FIELD_TYPES[name] == "str":
+            ok, txt = D(v) == P("{SOURCE: self._out_path}"), "dict_one SOURCE (out_path sp)"
+        else:
+            ok, txt = D(v) == P("{SOURCE: set()}"), "dict_one SOURCE set_empty"
+        if not ok:
+            bad(v, "self.%s does not start as {SOURCE: %s}" % (name, "self._out_path" if FIELD_TYPES[name] == "str"
+                                                             else "set()"))
+        res.append((name, txt))
+    return res
+
+
+def gen__stage(cls, fields):
+    fn = find_fn(cls, "_stage")
+    params_of(fn, ["dag"])
+    defs = []
+    cx = new_cx(fn, "stage", defs)
+    for name, _txt in fields:
+        cx.env[name] = "dict:" + FIELD_TYPES[name]
+    cx.env["dag"] = "graph"
+    entry = list(cx.env)
+
+    def ret(c, st):
+        if not (isinstance(st.value, ast.Name) and st.value.id == "dag"):
+            bad(st, "_stage must return the graph it was given")
+        return "Some " + tup(entry)
+    cx.fn_ret = ret
+    # t_sorted = self.topological_sort()
+    body = effective(cx, fn.body)
+    if not body or not (isinstance(body[0], ast.Assign) and len(body[0].targets) == 1 and
+                        isinstance(body[0].targets[0], ast.Name) and D(body[0].value) == P("self.topological_sort()")):
+        bad(fn, "_stage does not start with `<order> = self.topological_sort()`")
+    order = body[0].targets[0].id
+    cx.env[order] = "strlist"
+    lines = ["  let %s := topological_sort sp in" % G(order)] + block(cx, body[1:], 1, None, entry)
+    names = [d[0] for d in defs]
+    if sorted(names) != ["_stage_combo_gen", "_stage_step_gen", "_stage_unparam_gen"]:
+        bad(fn, "the structure of _stage changed: expected one walk over the steps, one unparameterised branch and "
+                "one loop over the combinations (found %s)" % ", ".join(names))
+    sig = "Definition _stage_gen (ap : list param -> nat -> str -> str) (san : str -> str) (pi : an_oracle) (sp : spec) %s : option (%s) :=" % (
+        group_params([(n, gtype(cx.env[n])) for n in entry]), tuple_type(cx, entry))
+    out = [finish(d[1]) for d in defs]
+    out.append(finish(["(* Study._stage *)", sig] + lines))
+    return out, entry
+
+
+def mentions(st, name):
+    return any(isinstance(n, ast.Name) and n.id == name for n in ast.walk(st))
+
+
+def gen_stage(cls, fields, entry):
+    fn = find_fn(cls, "stage")
+    params_of(fn, [])
+    cx = new_cx(fn, "stage")
+    seen = {"new": False, "nocycle": False, "ret": False}
+    passfn = None
+    for st in effective(cx, fn.body):
+        if isinstance(st, ast.Return):
+            if D(st) != P("return self._out_path, self._stage(dag)", "exec") or not (seen["new"] and seen["nocycle"]):
+                bad(st, "Study.stage does not end with `return self._out_path, self._stage(dag)` on a fresh graph "
+                        "whose cycle check is switched off")
+            seen["ret"] = True
+            continue
+        if seen["ret"]:
+            bad(st, "code after the return of Study.stage")
+        if isinstance(st, ast.FunctionDef):
+            if [x for x in st.body if not is_doc(x) and not isinstance(x, ast.Pass)] or mentions(st, "dag"):
+                bad(st, "a local function of Study.stage that does something")
+            passfn = st.name
+            continue
+        if isinstance(st, ast.Assign) and len(st.targets) == 1 and D(st.targets[0]) == P("dag"):
+            if not (isinstance(st.value, ast.Call) and D(st.value.func) == P("ExecutionGraph") and not st.value.args) \
+                    or seen["new"]:
+                bad(st, "the graph is not created by one `dag = ExecutionGraph(<keywords>)`")
+            seen["new"] = True          # the keywords configure execution, not expansion
+            continue
+        if isinstance(st, ast.Assign) and len(st.targets) == 1 and D(st.targets[0]) == P("dag.detect_cycle"):
+            if not passfn or D(st.value) != P("MethodType(%s, dag)" % passfn):
+                bad(st, "dag.detect_cycle is not replaced by the local no-op")
+            seen["nocycle"] = True
+            continue
+        if isinstance(st, ast.Expr) and isinstance(st.value, ast.Call) and \
+                D(st.value.func) in (P("dag.add_description"), P("dag.log_description")):
+            continue
+        if isinstance(st, ast.If) and not st.orelse and \
+                D(st.test) in (P("not os.path.exists(self._out_path)"), P("not self.environment.is_set_up")) and \
+                all(isinstance(x, ast.Raise) or is_logging(x) or (isinstance(x, ast.Assign) and is_string_expr(x.value))
+                    for x in st.body):
+            continue                    # preconditions of staging (outside the model)
+        touches_self = any(isinstance(n, (ast.Assign, ast.AugAssign)) and any(
+            self_attr(t) or (isinstance(t, ast.Subscript) and self_attr(t.value))
+            for t in (n.targets if isinstance(n, ast.Assign) else [n.target])) for n in ast.walk(st))
+        calls_self = any(isinstance(n, ast.Call) and isinstance(n.func, ast.Attribute) and
+                         isinstance(n.func.value, ast.Name) and n.func.value.id == "self" for n in ast.walk(st))
+        if mentions(st, "dag") or touches_self or calls_self or any(isinstance(n, (ast.Return, ast.Raise))
+                                                                    for n in ast.walk(st)):
+            bad(st, "statement `%s` of Study.stage is outside the templates" % src_of(st))
+        # a statement on locals only (e.g. computing a keyword of the ExecutionGraph): not part of the expansion
+    if not seen["ret"]:
+        bad(fn, "Study.stage does not return")
+    if entry != [f for f, _t in fields] + ["dag"] or sorted(f for f, _ in fields) != sorted(FIELD_TYPES):
+        bad(fn, "internal: fields")
+    lines = ["(* Study.__init__ (management structures) and Study.stage *)",
+             "Definition stage_gen (ap : list param -> nat -> str -> str) (san : str -> str) (pi : an_oracle) "
+             "(sp : spec) : result (usedmap * sstate) :=",
+             "  study_built sp ("]
+    for name, txt in fields:
+        lines.append("  let %s := %s in" % (name, txt))
+    lines += ["  let dag := execution_graph_new in",
+              "  staged (",
+              "  call (_stage_gen ap san pi sp %s) (fun %s =>" % (" ".join(entry), pat(entry)),
+              "  Some (used_params, mkSt dag step_combos workspaces))))"]
+    return finish(lines)
+
+
+HEADER = """(** The expansion code of maestrowf, statement by statement.
+    GENERATED by translate/tcode_stage.py from /repo's current source
+    (Combination.get_param_string / get_param_values, ParameterGenerator.
+    _get_used_parameters / get_used_parameters, ExecutionGraph.add_step /
+    add_connection, Study.__init__'s management structures, Study._stage,
+    Study.stage) as compositions of the combinators of Expand/StageOps.v;
+    Expand/StageGenProofs.v proves the definitions below equal to the hand-written
+    model of Expand/Expand.v ([stage], [stage_step], [stage_row], [add_instance],
+    [used_step], [combo_string], ...) that the theorems of Props/C08.v, C11.v,
+    C13_stageable and C18_stage_function are about, so an edit of the source that
+    changes what these functions do breaks a proof obligation.
+    Do not edit by hand. *)
+From Coq Require Import List Arith Bool NArith.
+From MWF Require Import Expand.StageOps.
+Import ListNotations.
+"""
+
+
+def _parse(repo, rel):
+    T.src = rel
+    try:
+        return ast.parse(open(os.path.join(repo, rel)).read())
+    except (OSError, SyntaxError, ValueError) as e:
+        raise NotTranslatable("%s: cannot parse: %s" % (rel, e))
+
+
+def generate(repo):
+    pt = _parse(repo, PARAMS)
+    comb, pgen = find_class(pt, "Combination"), find_class(pt, "ParameterGenerator")
+    parts = [gen_get_param_string(comb), gen_get_param_values(comb), gen_used_rec(pgen), gen_used(pgen)]
+    et = _parse(repo, EXECG)
+    eg = find_class(et, "ExecutionGraph")
+    parts += [gen_add_step(eg), gen_add_connection(eg)]
+    st = _parse(repo, STUDY)
+    check_constants(st)
+    study = find_class(st, "Study")
+    fields = gen_fields(study)
+    defs, entry = gen__stage(study, fields)
+    parts += defs
+    parts.append(gen_stage(study, fields, entry))
+    return {OUT: HEADER + "".join("\n" + p + "\n" for p in parts)}
+
+
+if __name__ == "__main__":
+    import sys
+    sys.stdout.write(generate(sys.argv[1] if len(sys.argv) > 1 else "/repo")[OUT])
